@@ -192,23 +192,37 @@ def exec_repro(case, d):
             msg += '; ' + str(first_diff(r1.sim.monitor.df, r2.sim.monitor.df))
         add('same_process_rerun_differs', msg, site=','.join(bad))
     hs = {}
+    try:
+        for h in case['hashseeds']:          # all helpers work concurrently
+            hp = _helper(h)
+            hp.stdin.write(json.dumps({'op': 'tables', 'sc': sc}) + '\n')
+            hp.stdin.flush()
+        for h in case['hashseeds']:
+            line = _helper(h).stdout.readline()
+            if not line:
+                raise RuntimeError('hash helper %s died' % h)
+            hs[h] = json.loads(line)
+            if 'error' in hs[h]:
+                raise RuntimeError('hash helper %s: %s' % (h, hs[h]))
+    except Exception as e:
+        close_helpers()
+        out['status'] = 'harness'
+        out['exc'] = ['helper', str(e)]
+        return out
     for h in case['hashseeds']:
-        try:
-            th = helper_call(h, {'op': 'tables', 'sc': sc})
-        except Exception as e:
-            out['status'] = 'harness'
-            out['exc'] = ['helper', str(e)]
-            return out
-        hs[h] = th
+        th = hs[h]
         out['nevents'] += th.get('nevents', 0)
         out['faults']['F6'] = out['faults'].get('F6', 0) + 1
         if any(t1[k] != th.get(k) for k in keys):
             bad = [k for k in keys if t1[k] != th.get(k)]
-            only_env = bad == ['env']
+            if bad == ['env']:
+                # outputs identical, only the internal event order differs: not a C10 violation
+                out['probes']['order_only_difference'] = out['probes'].get('order_only_difference', 0) + 1
+                continue
             add('differs_across_hash_seed',
                 'PYTHONHASHSEED=%s vs %s differ in %s (T %s vs %s, status %s vs %s)' % (
                     os.environ.get('PYTHONHASHSEED'), h, bad, t1['T'], th.get('T'), t1['status'], th.get('status')),
-                site='order_only' if only_env else ('tasks' if 'tasks' in bad else bad[0]))
+                site=('tasks' if 'tasks' in bad else bad[0]))
             break
     wide = any(len(w['nodes']) >= 3 for w in sc['wfs'])
     het = len({(m['flops'], m['compute_bandwidth']) for m in sc['machines'].values()}) > 1
